@@ -336,6 +336,21 @@ def run(ck):
     # 2. proof obligations
     proof_ok, failing = ck.proof_stage('MpVerif.C02.Props', 'MpVerif/C02/Props.lean', 'C02_',
                                         ['MpVerif/C02/*.lean', 'MpVerif/Gen/Opcodes.lean', 'MpVerif/Gen/NLGuards.lean'], expect_min=EXPECT_THEOREMS)
+    # name the failing declaration for errors outside Props.lean (the tie modules)
+    def decl_at(entry):
+        m = re.match(r'(MpVerif/C02/\w+\.lean):(\d+)$', entry)
+        if not m:
+            return entry
+        try:
+            lines = open(os.path.join(LEAN, m.group(1))).read().split('\n')
+            for k in range(min(int(m.group(2)), len(lines)) - 1, -1, -1):
+                mm = re.match(r'\s*(?:theorem|def|example)\s+([\w.\']+)', lines[k])
+                if mm:
+                    return '%s (%s)' % (mm.group(1), entry)
+        except OSError:
+            pass
+        return entry
+    failing = list(dict.fromkeys(decl_at(f) for f in failing))
     # the translator-tie theorems live in their own modules: audit them too
     if proof_ok:
         for mod in ('MpVerif.C02.GenTie', 'MpVerif.C02.GenTieLex', 'MpVerif.C02.GenTieStruct'):
@@ -625,7 +640,7 @@ def run(ck):
                                'harness/h_nlread.cc recording handler + error-class mapping; checks/c02.py oracle and comparison']
 
 
-EXPECT_THEOREMS = 12
+EXPECT_THEOREMS = 14
 
 
 def replay(ck, path):
